@@ -276,12 +276,13 @@ def _fun_events(rec, bv, Bv, ctxv, forms, full, tags):
         ev = {'a': 'Fun', 'err': err, 'B': Bv, 'env': {'fld': fenv, 'prm': prm}, 'F': term, 'S': int(S), 'exact': 1,
               's': 0, 'el': [], 'alts': [], 'tags': dict(tags, part=part)}
         if not err:
-            elarr = np.broadcast_to(np.asarray(out['el']), (Bv['nel'],)) if np.ndim(out['el']) <= 1 else np.asarray(out['el'])
-            s, el = _ints(_part(out['s'], part), S), _ints(_part(elarr, part), S)
-            alts = [_ints(_part(a, part), S) for a in out['alts']]
-            ok = s is not None and el is not None and all(a is not None for a in alts) and np.ndim(elarr) == 1 \
-                and np.ndim(out['s']) == 0
-            ev.update(s=int(s or 0) if np.ndim(out['s']) == 0 else 0, el=el if ok else [],
+            elarr = np.asarray(out['el'])
+            shape_ok = elarr.shape == (Bv['nel'],) and np.ndim(out['s']) == 0      # judged by ShapeOK otherwise
+            s = _ints(_part(out['s'], part), S) if np.ndim(out['s']) == 0 else None
+            el = _ints(_part(elarr, part), S) if shape_ok else None
+            alts = [_ints(_part(a, part), S) if np.ndim(a) == 0 else None for a in out['alts']]
+            ok = shape_ok and s is not None and el is not None and all(a is not None for a in alts)
+            ev.update(s=int(s or 0), el=el if ok else [],
                       alts=[int(a or 0) for a in alts], exact=1 if ok else 0)
         events.append(ev)
     return events
@@ -446,11 +447,12 @@ def _alt_subset(rng, mesh, bs):
 def gen_exact(rng, tier):
     """one recipe of the exact universe (the generator builds the bases once to learn their sizes)"""
     kind = str(rng.choice(['line', 'tri', 'tri', 'tri', 'quad', 'quad', 'tet', 'hex']))
-    mrec = fem.lattice_mesh(kind, rng)
-    mesh = fem.make_mesh(mrec)
-    nt = mesh.t.shape[1]
     btype = str(rng.choice(['cell', 'cell', 'cellsub', 'facet', 'facetsub', 'ifacet', 'ifacet'])) if kind != 'line' \
         else str(rng.choice(['cell', 'cell', 'cellsub']))
+    # cell subsets mostly on lattices whose cells differ in size (the order of the subset then matters for dx)
+    mrec = fem.lattice_mesh(kind, rng, nonuniform=True if (btype == 'cellsub' and rng.integers(0, 4)) else None)
+    mesh = fem.make_mesh(mrec)
+    nt = mesh.t.shape[1]
     grad = int(rng.integers(0, 3) == 0)
     # "sidepair": the two sides of interior facets as trial and test basis of ONE element (DG / jump blocks): trial != test
     # with equal numbers of DOFs, and a coefficient vector whose traces differ between the sides
@@ -464,7 +466,7 @@ def gen_exact(rng, tier):
         if btype == 'cellsub':
             k = int(rng.integers(1, nt + 1))
             bs['elements'] = [int(x) for x in rng.permutation(nt)[:k]]
-            if rng.integers(0, 2):
+            if rng.integers(0, 3) == 0:
                 bs['elements'] = sorted(bs['elements'])
     else:
         ref = fem.FACET_REF[kind]
@@ -707,7 +709,9 @@ def run(ctx):
         '(EntriesIntegral) instead of rounding',
         'law tier: both sides are float results of the code; a defect common to assembly and interpolate+Functional '
         '(e.g. wrong basis values) is out of the scope of C01 (see C03/C09/C10)',
-        'a DOF-vector keyword is only used when trial and test basis coincide',
+        'a DOF-vector keyword of a bilinear form is a coefficient vector of the trial basis (form.py: '
+        '_normalize_asm_kwargs(kwargs, ubasis)), the basis that also supplies the default x/h/n',
+        'call histories: keyword arrays modified in place between calls, form objects reused on a second pair of bases',
         'threaded kernels (nthreads > 0) are the subject of C16 and not exercised here',
         'TLC 1.8.0 and the CommunityModules Json module are trusted'], exhaustive=False)
 
